@@ -399,9 +399,15 @@ func init() {
 		return fr.m.execSSA(fr.caller, fr.fn, args, nil)
 	})
 	reg("strconv.Itoa", func(fr *frame, args []Value) Value {
+		if t := args[0].(*term.Term); fr.m.IntTokens && !t.IsConst() {
+			return fr.m.keyedToken("int", termKey(t), t)
+		}
 		return strconv.FormatInt(fr.conc(args[0], "strconv.Itoa"), 10)
 	})
 	reg("strconv.FormatInt", func(fr *frame, args []Value) Value {
+		if t := args[0].(*term.Term); fr.m.IntTokens && !t.IsConst() {
+			return fr.m.keyedToken("int", termKey(t), t)
+		}
 		return strconv.FormatInt(fr.conc(args[0], "strconv.FormatInt"), int(fr.conc(args[1], "base")))
 	})
 	reg("strconv.FormatUint", func(fr *frame, args []Value) Value {
